@@ -266,6 +266,12 @@ fn get_match_statically_known(
     provider.query_variable = &query_variable;
     provider.query_function = &asm::resolver::get_statically_known_builtin_fn;
 
+    // Arguments are evaluated in the context of the instruction,
+    // where the rule's parameters are not visible
+    let mut args_provider = expr::StaticallyKnownProvider::new();
+    args_provider.query_variable = &query_variable;
+    args_provider.query_function = &asm::resolver::get_statically_known_builtin_fn;
+
     // Every argument is evaluated and range-checked on resolution,
     // even when the rule's production does not read it
     let mut all_args_known = true;
@@ -284,7 +290,7 @@ fn get_match_statically_known(
             {
                 if let InstructionArgumentKind::Expr(ref arg_expr) = arg.kind
                 {
-                    if arg_expr.is_value_statically_known(&provider)
+                    if arg_expr.is_value_statically_known(&args_provider)
                     {
                         provider.locals.insert(
                             param.name.clone(),
